@@ -1,4 +1,6 @@
 import LoraVerif.Props.C12
+import LoraVerif.Props.TieA.RegionDispatch
+import LoraVerif.Props.TieA.NextLowerOps
 import LoraVerif.Props.TieA.C12
 /-!
 # C12 — the module `./check C12` builds: the property theorems (`Props/C12.lean`) together with the
